@@ -629,6 +629,145 @@ pub fn check_full(tmp: &Path, c: &FullDevice, obs: &mut Obs) -> CaseResult {
     r
 }
 
+/// Records of a mebibyte and more, produced in several write calls (a pattern with text before the message, or an
+/// encoder writing 64 KiB pieces): whatever staging happens in between, the file holds each record once, whole.
+#[derive(Serialize, Deserialize, Debug, Clone)]
+pub struct Giant {
+    pub len: usize,
+    /// None: PatternEncoder "{l} {t} - {m}{n}"-style (literal text and formatters around the message); Some: piece sizes
+    pub chunks: Option<Vec<usize>>,
+    pub rolling: bool,
+}
+
+pub fn check_giant(tmp: &Path, c: &Giant, obs: &mut Obs) -> CaseResult {
+    let dir = scratch(tmp, "c04g");
+    let r = (|| -> CaseResult {
+        let path = dir.join("giant.log");
+        let enc: Box<dyn Encode> = match &c.chunks {
+            Some(ch) => Box::new(ChunkEncoder { chunks: ch.clone() }),
+            None => Box::new(log4rs::encode::pattern::PatternEncoder::new("{l} {t} - {m}|{l}{n}")),
+        };
+        let app: Box<dyn Append> = if c.rolling {
+            let policy = make_policy(&dir, &TrigSpec::Size(1 << 40), &RollSpec::Delete).unwrap();
+            Box::new(log4rs::append::rolling_file::RollingFileAppender::builder().encoder(enc).build(&path, policy).map_err(|e| Failure { sig: "C04:build".into(), msg: e.to_string() })?)
+        } else {
+            Box::new(FileAppender::builder().encoder(enc).build(&path).map_err(|e| Failure { sig: "C04:build".into(), msg: e.to_string() })?)
+        };
+        let mut expected: Vec<u8> = vec![];
+        for (i, len) in [40usize, c.len, 17, c.len / 2 + 3].iter().enumerate() {
+            let msg = record_text(9, i as u32, *len);
+            match catch(|| append_msg(&*app, &msg)) {
+                Err(p) => return fail("C04:panic", format!("append of a {} byte record panicked: {}", msg.len(), p)),
+                Ok(Err(e)) => return fail("C04:append-error", format!("append of a {} byte record failed: {}", msg.len(), e)),
+                Ok(Ok(())) => {}
+            }
+            match &c.chunks {
+                Some(_) => expected.extend_from_slice(msg.as_bytes()),
+                None => expected.extend_from_slice(format!("INFO t - {}|INFO\n", msg).as_bytes()),
+            }
+            let got = std::fs::read(&path).unwrap_or_default();
+            obs.sub_evals += 1;
+            ensure!(
+                got == expected,
+                if got.len() < expected.len() { "C04:not-visible" } else { "C04:content" },
+                "after an acknowledged append of a record of {} bytes ({}) the file holds {} bytes, expected {}{}", msg.len(), if c.chunks.is_some() { "written in pieces" } else { "pattern with text around the message" }, got.len(), expected.len(),
+                if got.len() > expected.len() { " (part of the record was written twice)" } else { "" }
+            );
+        }
+        obs.nontrivial = true;
+        obs.class("record-of-a-mebibyte-and-more");
+        Ok(())
+    })();
+    let _ = std::fs::remove_dir_all(&dir);
+    r
+}
+
+// ---- appending while the thread is being torn down ---------------------------------------------------------------------
+
+/// A per-thread guard that logs a farewell from its destructor: by then other thread-locals of the thread may be gone.
+/// What such an append acknowledges is in the file like any other record. (Child process: a panic inside a thread-local
+/// destructor aborts.)
+#[derive(Serialize, Deserialize, Debug, Clone)]
+pub struct Teardown {
+    pub dir: String,
+    pub rolling: bool,
+}
+
+static TEARDOWN_APP: std::sync::Mutex<Option<Arc<dyn Append>>> = std::sync::Mutex::new(None);
+static TEARDOWN_RESULTS: std::sync::Mutex<Vec<(String, bool)>> = std::sync::Mutex::new(Vec::new());
+
+struct Farewell(&'static str);
+
+impl Drop for Farewell {
+    fn drop(&mut self) {
+        let app = TEARDOWN_APP.lock().unwrap().clone();
+        if let Some(app) = app {
+            let text = record_text(0x7E7E, self.0.len() as u32, 11);
+            let ok = append_msg(&*app, &text).is_ok();
+            TEARDOWN_RESULTS.lock().unwrap().push((text, ok));
+        }
+    }
+}
+
+thread_local! {
+    static FAREWELL_EARLY: Farewell = Farewell("early");
+    static FAREWELL_LATE: Farewell = Farewell("registered-late");
+}
+
+pub fn teardown_child(c: &Teardown, obs: &mut Obs) -> CaseResult {
+    let path = Path::new(&c.dir).join("teardown.log");
+    let app: Arc<dyn Append> = if c.rolling {
+        let policy = make_policy(Path::new(&c.dir), &TrigSpec::Size(1 << 40), &RollSpec::Delete).unwrap();
+        Arc::new(build_appender(&path, true, &None, policy).map_err(|e| Failure { sig: "C04:build".into(), msg: e.to_string() })?)
+    } else {
+        Arc::new(FileAppender::builder().encoder(make_encoder(&None)).build(&path).map_err(|e| Failure { sig: "C04:build".into(), msg: e.to_string() })?)
+    };
+    *TEARDOWN_APP.lock().unwrap() = Some(app.clone());
+    let a2 = app.clone();
+    let h = std::thread::Builder::new().name("worker".into()).spawn(move || -> Result<Vec<u8>, String> {
+        // one guard before the thread's first append, one after it: whichever way destructors are ordered, one of the
+        // farewells is written after the appender's own per-thread state (if it keeps any) is gone
+        FAREWELL_EARLY.with(|_| {});
+        let mut expected = vec![];
+        for i in 0..3u32 {
+            let text = record_text(1, i, 20 + i as usize);
+            append_msg(&*a2, &text).map_err(|e| e.to_string())?;
+            expected.extend_from_slice(text.as_bytes());
+        }
+        FAREWELL_LATE.with(|_| {});
+        Ok(expected)
+    });
+    let mut expected = match h.unwrap().join() {
+        Ok(Ok(e)) => e,
+        Ok(Err(e)) => return fail("C04:append-error", e),
+        Err(_) => return fail("C04:panic", "the worker thread ended with a panic"),
+    };
+    let farewells = TEARDOWN_RESULTS.lock().unwrap().clone();
+    ensure!(farewells.len() == 2, "C04:harness", "{} farewells instead of 2", farewells.len());
+    for (text, ok) in &farewells {
+        ensure!(*ok, "C04:append-error", "an append from a thread-local destructor at thread exit returned an error");
+        expected.extend_from_slice(text.as_bytes());
+    }
+    // (the appender is still alive: nothing has been dropped or flushed on anybody's behalf)
+    let got = std::fs::read(&path).unwrap_or_default();
+    obs.sub_evals += 1;
+    ensure!(
+        got == expected,
+        if got.len() < expected.len() { "C04:not-visible" } else { "C04:content" },
+        "three records during a thread's life and two acknowledged from thread-local destructors at its exit: the file holds {} bytes, expected {} ({})", got.len(), expected.len(), if c.rolling { "rolling file appender" } else { "file appender" }
+    );
+    obs.nontrivial = true;
+    obs.class("append-from-a-thread-local-destructor");
+    Ok(())
+}
+
+pub fn check_teardown(tmp: &Path, rolling: bool, obs: &mut Obs) -> CaseResult {
+    let dir = scratch(tmp, "c04t");
+    let out = crate::child::call_child(tmp, "c04tls", &Teardown { dir: dir.display().to_string(), rolling }, &[], Duration::from_secs(60));
+    let _ = std::fs::remove_dir_all(&dir);
+    crate::child::absorb(out, obs)
+}
+
 pub fn run(run: &Run) {
     let tmp = run.tmp.clone();
     let t9 = tmp.clone();
@@ -638,6 +777,20 @@ pub fn run(run: &Run) {
     if run.worker.0 == 1 % run.worker.1 {
         let t = tmp.clone();
         run.eval_one("long-life", &LongLife { records: 70_000, len: 6 }, &move |c: &LongLife, o: &mut Obs| check_long(&t, c, o));
+    }
+    if run.worker.0 == 3 % run.worker.1 {
+        for rolling in [false, true] {
+            let t = tmp.clone();
+            run.eval_one("thread-exit", &rolling, &move |r: &bool, o: &mut Obs| check_teardown(&t, *r, o));
+        }
+    }
+    if run.worker.0 == 2 % run.worker.1 {
+        for (i, len) in [(1usize << 20) - 60, (1 << 20) + 1, (1 << 20) + 70_000, 3 << 20].into_iter().enumerate() {
+            for chunks in [None, Some(vec![13usize, 65_536]), Some(vec![1 << 19, 5, 1 << 19])] {
+                let t = tmp.clone();
+                run.eval_one("giant", &Giant { len, chunks, rolling: i % 2 == 1 }, &move |c: &Giant, o: &mut Obs| check_giant(&t, c, o));
+            }
+        }
     }
     let f = move |c: &Case, o: &mut Obs| check(&tmp, c, o);
     run.run_replays::<Case>("file", &f);
@@ -660,6 +813,20 @@ pub fn replay(part: &str, case: serde_json::Value) -> Option<CaseResult> {
             let _ = std::fs::remove_dir_all(&tmp);
             Some(r)
         }
+        "thread-exit" => {
+            let tmp = std::env::temp_dir().join(format!("lv-replay-{}", std::process::id()));
+            std::fs::create_dir_all(&tmp).ok()?;
+            let r = check_teardown(&tmp, case.as_bool().unwrap_or(false), &mut Obs::default());
+            let _ = std::fs::remove_dir_all(&tmp);
+            Some(r)
+        }
+        "giant" => {
+            let tmp = std::env::temp_dir().join(format!("lv-replay-{}", std::process::id()));
+            std::fs::create_dir_all(&tmp).ok()?;
+            let r = check_giant(&tmp, &serde_json::from_value(case).ok()?, &mut Obs::default());
+            let _ = std::fs::remove_dir_all(&tmp);
+            Some(r)
+        }
         "long-life" => {
             let tmp = std::env::temp_dir().join(format!("lv-replay-{}", std::process::id()));
             std::fs::create_dir_all(&tmp).ok()?;
@@ -674,7 +841,7 @@ pub fn replay(part: &str, case: serde_json::Value) -> Option<CaseResult> {
 pub fn meta() -> EvidenceMeta {
     EvidenceMeta {
         level: "exploration",
-        rule: "cases = pre-existing content (none / random bytes / earlier records, 0-1100 bytes) x append or truncate mode x encoder (pattern {m} or a multi-chunk harness encoder writing each record in 1-N write calls crossing the 1 KiB buffer) x 0-8 single-threaded appends (payload 0-3 KiB, sizes around 1023/1024/1025/2048/3073) checked through a fresh file handle after every call x an optional concurrent phase of 2-8 threads x 1-30 records with generated start stagger, during which designated records park INSIDE the appender's critical section (between two chunks) until another thread announces it is about to append, while a reader thread samples the file and checks that every record a writer has finished is visible, x appends after the phase; oracle: file == pre-existing (append) or empty (truncate, checked right after build) ++ concatenation of all acknowledged records; after joining: the tail parses into whole uncorrupted records, multiset equals the acknowledged records, per-thread order kept. Part full-device: file and rolling file appenders on /dev/full (every write fails with ENOSPC): no append may return Ok. The appender may be built by the file deserializer (path, append, encoder pattern) instead of the builder. Part long-life: 70 000 short records through one open appender, size checked after every append, content every 4099th. Optional events before a single append: an append that unwinds (panicking Display argument), an append whose argument logs through another file appender (both records must land), another file appender failing in the middle of a record (nothing of it may appear here); record sizes include the neighbourhood of 8/16/64 KiB. non-trivial = a record > 1 KiB and (a record parked inside the critical section, or non-empty pre-existing content in append mode)".into(),
+        rule: "cases = pre-existing content (none / random bytes / earlier records, 0-1100 bytes) x append or truncate mode x encoder (pattern {m} or a multi-chunk harness encoder writing each record in 1-N write calls crossing the 1 KiB buffer) x 0-8 single-threaded appends (payload 0-3 KiB, sizes around 1023/1024/1025/2048/3073) checked through a fresh file handle after every call x an optional concurrent phase of 2-8 threads x 1-30 records with generated start stagger, during which designated records park INSIDE the appender's critical section (between two chunks) until another thread announces it is about to append, while a reader thread samples the file and checks that every record a writer has finished is visible, x appends after the phase; oracle: file == pre-existing (append) or empty (truncate, checked right after build) ++ concatenation of all acknowledged records; after joining: the tail parses into whole uncorrupted records, multiset equals the acknowledged records, per-thread order kept. Part full-device: file and rolling file appenders on /dev/full (every write fails with ENOSPC): no append may return Ok. The appender may be built by the file deserializer (path, append, encoder pattern) instead of the builder. Part thread-exit (child process): a thread appends three records, then two more from thread-local destructors at its exit (one registered before its first append, one after): all five are in the file. Part giant: records of 1-3 MiB written in several pieces (pattern with text around the message; encoders writing 13 B / 64 KiB / 512 KiB pieces) through file and rolling file appenders, content exact after every append. Part long-life: 70 000 short records through one open appender, size checked after every append, content every 4099th. Optional events before a single append: an append that unwinds (panicking Display argument), an append whose argument logs through another file appender (both records must land), another file appender failing in the middle of a record (nothing of it may appear here); record sizes include the neighbourhood of 8/16/64 KiB. non-trivial = a record > 1 KiB and (a record parked inside the critical section, or non-empty pre-existing content in append mode)".into(),
         assumptions: vec!["OS scheduler not controlled: interleavings are amplified (parking inside the critical section, stagger, volume), a failing case replays with the same pressure but not the same OS interleaving".into()],
         mutants_caught: vec![],
     }
